@@ -1022,6 +1022,22 @@ func (e *cenv) call(x *cCall) val {
 			e.fail("as needs a type")
 		}
 		return val{g.fromIface(v.t, t), t, g.sortOf(t)}
+	case "dyncall":
+		// dyncall(f, args...): the result of a pure call through function value f
+		f := e.tr(x.args[0])
+		sig, ok := f.typ.Underlying().(*types.Signature)
+		if !ok || sig.Results().Len() != 1 {
+			e.fail("dyncall needs a function value with one result")
+		}
+		var as []val
+		for i, a := range x.args[1:] {
+			v := e.tr(a)
+			if i < sig.Params().Len() {
+				v = e.convert(v, sig.Params().At(i).Type())
+			}
+			as = append(as, v)
+		}
+		return g.dynApp(sig, f, as)
 	case "allocated":
 		// the object exists in the current state (its reference is below the
 		// allocation watermark)
